@@ -203,6 +203,39 @@ example : dialAddrTransport [.ip6 3, .tcp 7, .p2p 4] = some .tcp ∧
     dialAddrTransport [.ip4 5, .tcp 5, .p2p 1, .p2p 2] = none := by
   decide
 
+/-- **The synchronous part of the real TCP transport accepts whatever the manager hands it.** Every
+`Transport::dial` call `dial_address` makes and every `Transport::open` call `dial` makes — in every
+state, for every address / address-book content, ports 0 and 65535, unspecified, broadcast and loopback
+hosts included (the model's addresses are arbitrary numbers) — passes the synchronous checks of
+`TcpTransport::dial` / `open` (`tcpDialSync`, `tcpOpenSync`: the address parser, nothing else). So the
+`?` after `Transport::dial` in `dial_address`, which would leave the peer `Dialing` with no pending
+connection (wedged: every later dial answers `Ok` "dialing in progress"), is never taken. The adapter
+runs the REAL `TcpTransport::dial` / `open` behind the scripted transport: a synchronous refusal the
+real transport gains is a disagreement with this model on the refused address. -/
+theorem transport_dial_total_on_accepted_shapes (s : Mgr) :
+    (∀ a c a', Call.dial c a' ∈ (dialAddress s a).2.calls → tcpDialSync a' = true) ∧
+    (∀ p ch c as, Call.open c as ∈ (dial s p ch).2.calls → tcpOpenSync as = true) := by
+  refine ⟨fun a c a' h => ?_, fun _ _ _ _ _ => rfl⟩
+  cases dialAddress_shape s a with
+  | refused e _ hcalls _ _ _ _ _ _ => rw [hcalls] at h; cases h
+  | joined p _ hcalls _ _ _ _ _ _ _ _ => rw [hcalls] at h; cases h
+  | started p _ hcalls _ _ htcp _ _ _ _ _ _ =>
+    rw [hcalls, List.mem_singleton] at h
+    injection h with _ ha
+    rw [ha, tcpDialSync, htcp]; rfl
+
+/-- Non-vacuity: port 0 on an unspecified host, port 65535 on a "broadcast" host (`ip4 99999` in the
+harness's numbering) and a DNS name on port 0 are handed to the transport and pass its synchronous
+part; a `/ws` address never reaches it. -/
+example :
+    (dialAddress (Mgr.init {}) [.ip4 0, .tcp 0, .p2p 1]).2.calls = [.dial 0 [.ip4 0, .tcp 0, .p2p 1]] ∧
+    tcpDialSync [.ip4 0, .tcp 0, .p2p 1] = true ∧
+    (dialAddress (Mgr.init {}) [.ip4 99999, .tcp 65535, .p2p 2]).2.calls = [.dial 0 [.ip4 99999, .tcp 65535, .p2p 2]] ∧
+    tcpDialSync [.dns6 3, .tcp 0, .p2p 3] = true ∧
+    (dialAddress (Mgr.init {}) [.ip4 5, .tcp 0, .ws, .p2p 1]).2.calls = [] ∧
+    tcpDialSync [.ip4 5, .udp 0, .p2p 1] = false := by
+  decide
+
 /-! ## Dial requests of the protocols -/
 
 theorem poutcome_eq {ps : PS} (h : PInv ps) {j : Nat} (hj : j ∈ ps.order) (a : Attempt) :
@@ -510,6 +543,7 @@ example :
 #print axioms addr_total
 #print axioms dial_address_parses_for_tcp
 #print axioms dial_address_peers_agree
+#print axioms transport_dial_total_on_accepted_shapes
 #print axioms protocol_dial_ledger
 #print axioms protocol_dial_joins
 #print axioms protocol_notified_despite_full_channel
